@@ -112,3 +112,22 @@ pub fn float_branch_condition(float_type: FloatType, first: &ZValue, second: &ZV
 pub fn str_split_once_kernel(string: &Utf8String, separator: &char) -> Option<(Utf8String, Utf8String)> {
     /*@let lang/dynamics/src/impls.rs :: fn str_split_once_branch :: let pair @*/
 }
+
+// ---- error kind numbering shared with the native runtime ABI ----
+use std::io;
+/*@type lang/dynamics/src/host.rs :: enum HostIoErrorKind
+   derive Clone, Copy, Debug, PartialEq, Eq
+@*/
+impl HostIoErrorKind {
+/*@fn lang/dynamics/src/host.rs :: impl HostIoErrorKind :: fn from_error
+  plain
+@*/
+/*@end*/
+}
+/*@type lang/dynamics/src/host.rs :: struct HostIoError @*/
+impl HostIoError {
+/*@fn lang/dynamics/src/host.rs :: impl HostIoError :: fn closed
+  plain
+@*/
+/*@end*/
+}
